@@ -18,6 +18,9 @@ import (
 type JGen struct {
 	R   *rand.Rand
 	key int
+	// Timed: scripted handlers now and then reply under a short-lived derived context, wait until it has expired, and
+	// reply again; they also reply empty / nil raw JSON values (used by the engines that can afford the waits)
+	Timed bool
 }
 
 var jNumbers = []string{"0", "-0", "1", "-1", "42", "9007199254740992", "9007199254740993", "-9007199254740993",
